@@ -11,7 +11,8 @@ META = dict(
     functions=["DatasetWrapper.copy/__deepcopy__/__copy__/isel", "WaveSpectrum.__add__/__sub__/__neg__/multiply/"
                "__getitem__/bandpass/mean/sum/flatten/where/drop_invalid/interpolate/interpolate_frequency/fillna",
                "FrequencyDirectionSpectrum.as_frequency_spectrum", "FrequencySpectrum.as_frequency_direction_spectrum "
-               "(not run: estimator)", "operations.concatenate_spectra", "create_1d_spectrum/create_2d_spectrum"],
+               "(not run: estimator)", "WaveSpectrum.std/where/sel/is_valid/is_invalid, FrequencySpectrum.cdf/down_sample/"
+               "extrapolate_tail/bulk_variables", "operations.concatenate_spectra", "create_1d_spectrum/create_2d_spectrum"],
     bounds=dict(quick="1D spectra (time=2, nf=3) and 2D spectra (time=2, nf=2, nd=3) filled with pairwise distinct "
                       "symbols (one structural NaN); every public operation applied once, plus sequences of 2..3 "
                       "operations; concatenation of N=1..3 spectra along time and latitude with every index selected",
@@ -19,7 +20,9 @@ META = dict(
     outside=["netCDF save/load round trip (file I/O of the C library cannot be executed on symbolic arrays): not "
              "applicable to this technique", "sequences longer than the stated length are covered by induction only: "
              "each operation leaves all live operands unchanged, so any composition does",
-             "sel() with label lookup on symbolic coordinates", "spline interpolation"],
+             "sel() with label lookup on symbolic coordinates", "spline interpolation",
+             "differentiate (xarray's gradient converts to float), slope / saturation spectra (need the dispersion "
+             "solver: C07)", "fillna (documented in-place method, returns None)"],
     trusted_base=["symx engine", "operand snapshots compare every element of every variable by object identity / term "
                   "equality (decided by z3) before and after the call"],
     assumptions=[],
@@ -100,12 +103,20 @@ def _ops(ctx, kind):
         "interp_same_time": lambda s, o: s.interpolate({"time": s.time.values}),
         "interp_same_freq_da": lambda s, o: s.interpolate_frequency(s.frequency),
         "moments": lambda s, o: (s.hm0(), s.tm01(), s.peak_index(), s.m0(0.0625, 0.5)),
+        "std": lambda s, o: s.std("time", skipna=True),
+        "where": lambda s, o: s.where(s.is_valid()),
+        "sel_time": lambda s, o: s.sel({"time": s.time.values[1]}),
+        "is_valid": lambda s, o: (s.is_valid(), s.is_invalid()),
     }
     if kind == "2d":
         ops["as_1d"] = lambda s, o: s.as_frequency_spectrum()
         ops["direction_step"] = lambda s, o: (s.direction_step, s.e, s.a1)
     else:
         ops["mean_direction"] = lambda s, o: (s.mean_direction(), s.mean_directional_spread())
+        ops["cdf"] = lambda s, o: s.cdf()
+        ops["down_sample"] = lambda s, o: s.down_sample(ctx.const(np.array([0.125, 0.25])))
+        ops["extrapolate_tail"] = lambda s, o: s.extrapolate_tail(1.0, power=-4)
+        ops["bulk_variables"] = lambda s, o: s.bulk_variables()
     return ops
 
 
